@@ -8,7 +8,8 @@ import someip.config as C
 from harness import core, vloop
 
 LEVEL = "Lean theorems c08_* (k-th id/flag per destination, independence, never 0, empty send) + differential correspondence"
-DESTS = [None] + [("10.0.0.%d" % i, 30490) for i in range(1, 5)]
+# destinations: 1 and 2 share a host and differ in the port only, so do 3 and 4
+DESTS = [None, ("10.0.0.1", 30490), ("10.0.0.1", 30491), ("10.0.0.2", 30490), ("10.0.0.2", 30491)]
 ENTRY = C.Service(0x1234, 1, 1, 0).create_offer_entry(3)
 
 
